@@ -24,7 +24,7 @@ P = {
     "driver": {"cmd": "k8snp", "env": {"VERIF_C29_UNDEFAULTED": "1" if RAW else "0"}},
     "trace": {"module": "T_K8sNP", "cfg": "T_K8sNP_raw.cfg" if RAW else "T_K8sNP.cfg", "timeout": 1500, "heap": "3g"},
     "rule": "cases = (A) every NetworkPolicy over a tiny vocabulary (3 pod selectors x policyTypes x one rule with <=2 of 7 "
-            "peers and a sequence of <=1 (quick) / <=2 (thorough) of 7 port entries) enumerated by TLC, thinned by seed in the "
+            "peers and a sequence of <=1 (quick) / <=2 (thorough) of 8 port entries) enumerated by TLC, thinned by seed in the "
             "quick tier, on a fixed 3-pod cluster, and (B) seeded random clusters (3 namespaces, 5-7 pods with labels, named "
             "container ports, service accounts, 1 in 5 dual-stack) x 4 policy sets (1-2 NetworkPolicies: matchLabels / "
             "In / NotIn / Exists / DoesNotExist, every peer kind, ipBlock with 0-2 except, numeric / named / endPort ports, "
@@ -73,6 +73,19 @@ def _generate(ctx):
     return groups
 
 
+def _behaviours_from_trace(path):
+    groups = []
+    for e in core.read_ndjson(path):
+        if e["ev"] == "reset":
+            groups.append([{"op": "cluster", "namespaces": e["namespaces"], "pods": e["pods"], "sas": e.get("sas", []),
+                            "ext": e.get("ext", [])}])
+        elif e["ev"] == "case" and groups:
+            groups[-1].append({"op": "case", "nps": e["nps"], "nilMaps": bool(e.get("nilMaps", False))})
+    if not groups:
+        raise HarnessError("no trace to replay in " + path)
+    return groups
+
+
 STAT = re.compile(r'<<"C29_STAT", (\d+), (\d+), (\d+), (TRUE|FALSE)>>')
 
 
@@ -118,14 +131,14 @@ def run(ctx):
         ctx.add_design(r)
         log("design I_Conv/%s: %d policies, %.1fs" % (cfg, r.distinct, r.wall))
     if ctx.replay:
-        beh_path = os.path.join(ctx.replay, "behaviours.json")
-        if not os.path.exists(beh_path):
-            beh_path = None
+        # re-execute the recorded inputs: the Kubernetes side of a recorded trace is a complete behaviour
+        groups = _behaviours_from_trace(os.path.join(ctx.replay, "trace.ndjson"))
+        n_random = 0
     else:
         groups = _generate(ctx)
-        beh_path = os.path.join(ctx.work, "behaviours.json")
-        json.dump(groups, open(beh_path, "w"))
-    n_random = 50 if ctx.quick else 1000
+        n_random = 50 if ctx.quick else 1000
+    beh_path = os.path.join(ctx.work, "behaviours.json")
+    json.dump(groups, open(beh_path, "w"))
     trace_path = os.path.join(ctx.work, "trace.ndjson")
     pipeline.run_driver(ctx, P["driver"], beh_path, trace_path, n_random)
 
@@ -181,7 +194,7 @@ def run(ctx):
                                      "connections_compared": conns, "nontrivial_cases": nontrivial,
                                      "tlc_wall_s": round(tlc_wall, 1), "rejected": stats_rej}
     ctx.notes["exhaustive_note"] = ("thorough tier replays the complete TLC enumeration of the tiny vocabulary "
-                                    "(24804 policies); the random leg is a sample")
+                                    "(31764 policies); the random leg is a sample")
     if len(traces) > 1:
         t_id, lines = traces[-1]
         ev = json.loads(lines[1]) if len(lines) > 1 else {}
